@@ -265,7 +265,8 @@ fn replay(cases: &str, out: &str) {
                     Some(x) => json!({"ok": false, "err": x}),
                     None => json!({"ok": true, "fonts": fonts_obs, "diff": diff}),
                 };
-                let exp = json!({"ok": true, "fonts": c["fonts"], "diff": c["diff"]});
+                // (`exp_fonts` is only present in the driver's binding self-check: a corrupted expectation)
+                let exp = json!({"ok": true, "fonts": if c["exp_fonts"].is_null() { &c["fonts"] } else { &c["exp_fonts"] }, "diff": c["diff"]});
                 if got != exp {
                     mism += 1;
                     w.write(&json!({"kind": "font", "id": c["id"], "sub": {"ch": ch}, "want": exp, "got": got, "woff2": hex(&e.bytes), "case": c}));
